@@ -6,10 +6,22 @@ use serde::{Deserialize, Serialize};
 
 #[derive(Debug, Serialize, Deserialize, Clone, Copy, Default, PartialEq, Eq, Hash, PartialOrd)]
 pub struct Number {
+    #[serde(deserialize_with = "deserialize_value")]
     pub value: OrderedFloat<f64>,
     pub suffix: Option<NumberSuffix>,
     pub radix: u32,
     pub precision: usize,
+}
+
+/// JSON has no literal for an infinite value: `serde_json` writes a literal beyond the range of
+/// `f64` (`1e999`, whose parsed value is infinite) as `null`. Read it back as what it was, rather
+/// than rejecting the whole document. Lexed numbers are never negative and never NaN.
+fn deserialize_value<'de, D>(deserializer: D) -> Result<OrderedFloat<f64>, D::Error>
+where
+    D: serde::Deserializer<'de>,
+{
+    let value = Option::<f64>::deserialize(deserializer)?;
+    Ok(OrderedFloat(value.unwrap_or(f64::INFINITY)))
 }
 
 impl Display for Number {
